@@ -172,7 +172,8 @@ def run(res, tier, rng):
     F = impl_funcs()
     inputs, exh = gen_inputs(tier, rng)
     corpus = ["%2541", "%4%31", "%%34%31", "%E9", "\xe9%A9", "%C3%41", "%7F", "%C2%80", "a b", "a b%41", "%2F", "%2B", "%e9%C3%A9%e9",
-              "%%341", "50%%32Fx", "tag%23top", "t%c3%a9st", "%F4%90%80%80", "%ED%A0%80"] + load_corpus()
+              "%%341", "50%%32Fx", "tag%23top", "t%c3%a9st", "%F4%90%80%80", "%ED%A0%80",
+              "cafe%CC%81", "e%CC%81%41", "a%CC%8A%2F", "%a%31", "%%61%62", "%f%30", "%A%31", "x%e%41"] + load_corpus()
     inputs = corpus + inputs
     res.exhaustive = True
     nontriv = set()
